@@ -35,6 +35,28 @@ HARNESS(h_dec_pair) {
   else P(!shape, "a well-shaped pair decodes");
   WIT(N >= 4 ? (r.f0 && IN_val[1] == 7) : (!r.f0 && r.f1 != 0));
 }
+/* sequence containers: [begin_array, e1..eNE, end_array] decodes to exactly those NE elements in order */
+#ifndef NE
+#define NE 3
+#endif
+#ifndef SEQ
+#define SEQ 0
+#endif
+typedef struct S_struct_2esres4 sres4_t;
+HARNESS(h_dec_seq) {
+  HAVOC_ARR(IN_kind, 6); HAVOC_ARR(IN_val, 6);
+  tev_t t[6]; memset(t, 0, sizeof t); t[0].f0 = K_BA; for (int i = 0; i < NE; i++) { ASSUME(IN_kind[1 + i] == K_UINT || IN_kind[1 + i] == K_INT || IN_kind[1 + i] == K_BOOL); t[1 + i].f0 = IN_kind[1 + i]; t[1 + i].f1 = IN_val[1 + i]; } t[1 + NE].f0 = K_EA;
+  sres4_t r; memset(&r, 0, sizeof r); IRC_THROW_ALLOWED = 0;
+#if SEQ == 0
+  k_dec_flist(t, NE + 2, &r);
+#else
+  k_dec_vector(t, NE + 2, &r);
+#endif
+  P(r.f0 == 1 && r.f2 == NE, "a well-formed array of scalars decodes to a sequence of the same length");
+  for (int i = 0; i < NE; i++) P(r.f3.a[i] == (u16)as_int(IN_kind[1 + i], IN_val[1 + i]), "elements are decoded in order, each exactly");
+  P(r.f4 == NE + 1, "cursor left on end_array");
+  WIT(r.f0 == 1 && (NE == 0 || r.f3.a[0] == 7));
+}
 /* basic_json route on the model Json */
 u32 mj_is_array; u64 mj_size; u32 mj_intmask; s64 mj_val[4]; u32 n_access;
 u64 mj_getval(u64 i) { return (u64)mj_val[i < 4 ? i : 3]; }
